@@ -57,9 +57,12 @@ type World struct {
 	chg      chan struct{}
 	gate     FetchGate
 	Instant  bool // deliver messages immediately instead of pooling
-	tmp      string
-	fetches  int64
-	closed   bool
+	// FailFastUnknown: a block that no peer of the world holds fails at once
+	// (a fetch that times out) instead of blocking.
+	FailFastUnknown bool
+	tmp             string
+	fetches         int64
+	closed          bool
 }
 
 func NewWorld(h *hk.H) *World {
